@@ -61,13 +61,20 @@ def _rng_or_seed(scn):
     return random.Random(scn["seed"])
 
 
-def run_scenario(scn):
+def run_scenario(scn, cache=None):
+    """`cache` (a dict owned by the caller): the problem object is built once and the *same object* is handed to every
+    repeat of the scenario - "the same problem" includes the same problem instance, which a run must leave as it found it"""
     comp = scn["component"]
     seed = scn["seed"]
     P = scn.get("params", {})
     if comp in ("laostar", "lrtdp", "td", "rmax", "mdp_rollout", "mdp_evaluate", "semimdp"):
-        mdp, view = build_mdp(scn["mdp"])
-        ref = RefMDP(scn["mdp"])
+        if cache is not None and "mdp" in cache:
+            mdp, view, ref = cache["mdp"]
+        else:
+            mdp, view = build_mdp(scn["mdp"])
+            ref = RefMDP(scn["mdp"])
+            if cache is not None:
+                cache["mdp"] = (mdp, view, ref)
     if comp == "laostar":
         from msdm.algorithms.laostar import LAOStar
         vstar = ref.optimal()["V"]
@@ -111,7 +118,12 @@ def run_scenario(scn):
                    seed=seed).train_on(mdp)
         return digest({"q": res.q_values, "episode_rewards": res.event_listener_results.episode_rewards})
     if comp in ("bpi", "ga", "pomdp_rollout"):
-        pomdp, view = build_pomdp(scn["pomdp"])
+        if cache is not None and "pomdp" in cache:
+            pomdp, view = cache["pomdp"]
+        else:
+            pomdp, view = build_pomdp(scn["pomdp"])
+            if cache is not None:
+                cache["pomdp"] = (pomdp, view)
         if comp != "pomdp_rollout" and scn.get("seed_kind") in ("int64", "uint32", "int32"):
             # a seed taken from a numpy array / SeedSequence.generate_state is a numpy integer
             seed = getattr(np, scn["seed_kind"])(seed)
